@@ -416,6 +416,15 @@ func (w *world) noteSigned(m *aMsg, from uint64) {
 			w.signed[sk(s.Id, key)] = true
 		}
 	}
+	// a member's key is not tied to one instance: the same members run a sibling instance (id worldInst+1) in which the
+	// same references get signed. Those signatures are genuine and the adversary can replay them here; what must keep
+	// them out is the instance id inside the signed bytes (C08).
+	sib := func(s aSig, r aRef) {
+		if s.Ok && from != 9999 && r.Inst == worldInst && (r.Type == 1 || r.Type == 2 || r.Type == 3) {
+			r.Inst = worldInst + 1
+			w.signed[sk(s.Id, refKey(r))] = true
+		}
+	}
 	noteProof := func(p *aProof) {
 		if p == nil {
 			return
@@ -428,6 +437,7 @@ func (w *world) noteSigned(m *aMsg, from uint64) {
 	switch m.Kind {
 	case "PP", "P", "C":
 		note(m.Snd, refKey(m.Ref))
+		sib(m.Snd, m.Ref)
 	case "VC":
 		note(m.Vote.Snd, voteKey(*m.Vote))
 		noteProof(m.Vote.Proof)
@@ -567,6 +577,10 @@ func runWorldModeX(cfg *runCfg, name string, kf1 bool, live bool) error {
 			w = directedWorld(r, rep, cfg.seed*100000+5, 1)
 			w.doubleNewViewScript()
 			rep.count("world:directed-double-new-view-script")
+		} else if !kf1 && i == 6 {
+			w = directedWorld(r, rep, cfg.seed*100000+6, 3)
+			w.siblingInstanceProofScript()
+			rep.count("world:directed-sibling-instance-proof-script")
 		} else {
 			w.run()
 		}
